@@ -313,6 +313,28 @@ func runProp(prop string) int {
 			}
 		}
 	}
+	// 2c. a closure whose contract states facts about captured values: the function that makes
+	// the closure is verified too (the facts are demanded there).
+	for _, f := range append([]*ssa.Function{}, order...) {
+		con := todo[f]
+		if con == nil || len(con.Captured) == 0 || !hasProp(con.Props, prop) {
+			continue
+		}
+		par := f.Parent()
+		if par == nil {
+			continue
+		}
+		if _, ok := todo[par]; ok {
+			continue
+		}
+		key, _, _ := fnIDs(par)
+		pc := P.CS.Funcs[key]
+		if pc == nil {
+			pc = &Contract{Kind: "func", Name: par.RelString(par.Pkg.Pkg), Pkg: par.Pkg.Pkg.Path(), Mode: con.Mode, LoopInv: map[int][]*Clause{}, LoopDec: map[int]*Clause{}, LoopMod: map[int][]string{}, Opts: map[string]string{}}
+		}
+		todo[par] = pc
+		order = append(order, par)
+	}
 	ruleHits := map[string]int{}
 	definesUsed := map[string]bool{}
 	// opt instances=name:lo..hi : the function is verified once per value of an integer
